@@ -177,8 +177,8 @@ def correspondence(run, cases, variants):
     """Model (run + serialize_value under each option set) against the library, ordered members compared."""
     ccases = []
     for c in cases:
-        if c.get("derive"):
-            continue        # derived objects are not inputs of the JSON-level model
+        if c.get("derive") or c["cid"].startswith("custom/"):
+            continue        # derived objects / types registered in the oracle worker are not inputs of the model
         if has_unregistered_toplevel_ext(c["data"]) and not SORTED_EXT_ORDER[0]:
             continue        # the pinned code stores these properties in Python set order (C01-extension-property-order-...)
         if has_unregistered_toplevel_ext(c["data"]) and "custom_properties" in c["data"]:
@@ -273,6 +273,59 @@ def gen_cases(run, per_class):
     return cases
 
 
+EXT_OBJ = "extension-definition--a932fcc6-e032-476c-826f-cb970a5a1ade"
+EXT_OBS = "extension-definition--b1c2d3e4-0a1b-4c2d-8e3f-1a2b3c4d5e6f"
+
+
+def custom_type_cases(gen):
+    """Objects of the custom types the oracle worker registers (plain, and 2.1 ones declared with
+    extension_name=): constructor and parse routes, with and without user-given extensions and x_ properties."""
+    r = gen.rng
+    out = []
+    t0 = "2016-01-01T00:00:00.000Z"
+    for cid, ver, kind, ext in (("custom/2.0/x-c01-object", "2.0", "obj", None), ("custom/2.1/x-c01-object", "2.1", "obj", None),
+                                ("custom/2.1/x-c01-new-thing", "2.1", "obj", EXT_OBJ),
+                                ("custom/2.0/x-c01-observable", "2.0", "obs", None), ("custom/2.1/x-c01-observable", "2.1", "obs", None),
+                                ("custom/2.1/x-c01-new-observable", "2.1", "obs", EXT_OBS)):
+        t = cid.split("/")[2]
+        for i in range(4):
+            d = {"type": t}
+            if kind == "obj":
+                d.update({"id": t + "--" + gen.uuid(), "created": t0, "modified": t0})
+                if ver == "2.1":
+                    d["spec_version"] = "2.1"
+                for n, v in (("x_foo", gen.string(True)), ("x_num", 7), ("bar_value", 3), ("zeta", ["b", "a"])):
+                    if n in ("bar_value", "zeta") and "new-thing" not in t or n == "x_num" and "new-thing" in t:
+                        continue
+                    if r.random() < 0.7:
+                        d[n] = v
+                if r.random() < 0.5:
+                    d["labels"] = ["l1"]
+            else:
+                d["value"] = gen.string(True) or "v"
+                if ver == "2.1" and r.random() < 0.5:
+                    d["id"] = t + "--" + gen.uuid(5)
+                if ver == "2.1" and "id" not in d:
+                    d["spec_version"] = "2.1"
+                if r.random() < 0.6:
+                    d["x_more"] = 5
+                if "new-observable" in t and r.random() < 0.6:
+                    d["a_first"] = "a"
+            allow = False
+            if ver == "2.1" and i >= 2:
+                # user-given extensions next to the declared one
+                d["extensions"] = {"extension-definition--" + gen.uuid(): {"extension_type": "property-extension", "rank": 1}}
+                if ext and r.random() < 0.5:
+                    d["extensions"][ext] = {"extension_type": "new-sdo" if kind == "obj" else "new-sco"}
+            if i == 3:
+                d["x_custom_extra"] = 1
+                allow = True
+            route = "construct" if i % 2 == 0 else "parse"
+            data = {k: v for k, v in d.items() if not (route == "construct" and k == "type")}
+            out.append({"route": route, "cid": cid, "data": data, "allow": allow, "opts": CORE_OPTS[:4] + [r.choice(ALL_OPTS)]})
+    return out
+
+
 FIXED_CASES = [
     # an empty 2.1 bundle (constructible; its text has no "objects")
     {"route": "construct", "cid": "2.1/Bundle", "data": {"id": "bundle--00000000-0000-4000-8000-000000000001"},
@@ -341,6 +394,7 @@ def check(run):
             run.notes.append("could not evaluate lib_proved_ids: %s" % str(e)[-300:])
     run.coverage["extension_property_order_sorted"] = SORTED_EXT_ORDER[0]
     cases = FIXED_CASES + gen_cases(run, per_class)
+    cases += custom_type_cases(stixgen.Gen(run.rng))
     results = common.run_impl("c01_impl", cases)
     created = 0
     hist = {}
